@@ -28,7 +28,7 @@ LEVEL = "proof"
 EXTRA_PROPS = ["QuantemModel.Props.C17Ext"]   # growth 6: closed boundary of Itoh, orientation symmetry, wrap_around flipped on one grid
 MANIFEST_ENTRY = {
     "category": "proof",
-    "text": "Lean 4 theorems over an executable model of the reliability-sorting unwrapper (edge construction for bounded/periodic grids with masks, union-find with offsets exactly as UnionFindPhase: no path compression, union by rank, the code's sign conventions; final offsets; mean removal; the bright-field embedding) and of the PUBLIC entry points with their argument handling (dispatch on method, phi.shape unpacking, the mask entering through broadcasting and flat indexing, value lengths and the lazily validated method of unwrap_bf_overlap_phase_torch) including the exception type of every rejected call. The merge ORDER is an input of the model, so every theorem holds for every order the float reliability sort could produce. Proved for all sizes, masks, edge multigraphs (self-loops/duplicates included) and orders: termination of find (rank strictly increases to the root), the offset-consistency invariant (every stored offset is n(pixel)-n(parent) for any integer field the increments are differences of), Itoh => increments are wrap-count differences (over the reals, threshold pi), hence out - truth is constant on every connected component of the masked edge graph; out - input is in 2*pi*Z plus one constant for every input; smooth unwrapped input is returned up to one constant; same-tree edges are no-ops; the grid-level body of unwrap_bf_overlap_phase_torch (mask test, max-min>pi test, one or two passes) returns the truth up to a constant per connected overlap region in every branch; the model's edge graph is the 4-neighbour graph (bounded and periodic; the periodic edge list is characterised as a multiset for every HxW incl. H or W in {1,2}: self-loops / double edges exactly there); the input is taken raw: recovery holds for any representative of the truth whose neighbouring wrap counts are at most one apart (any 2*pi window such as [0,2pi), partially or fully unwrapped input), with a counterexample two cycles apart; the result is independent of the reliability (any comparison function used for the sort, any wrap function inside _pixel_reliability); the whole unwrap_bf_overlap_phase_torch incl. scatter phase_grid[bf_mask]=... and gather is correct entry by entry, for every number of images. Growth 5, over HISTORIES including calls that raise: a well-formed call (2-D phase, no mask or a mask of the grid's shape) never raises, never diverges and is correct (call_valid_correct: total correctness of the public entry point); in ANY history of calls on the module, valid and rejected ones in any order, every well-formed call returns what it returns alone, i.e. the truth up to a constant per region (session_exception_safe, session_pointwise); the rejected calls by exception type (rejected_calls: unknown method / non-2-D phase ValueError, Poisson on a bounded grid NotImplementedError, non-broadcastable mask RuntimeError, a mask that broadcasts but has fewer elements than the grid IndexError, never silently broadcast); after ANY history of union calls on one UnionFindPhase object, calls with an index past the end included, exactly those raise, they leave the object untouched (state = state after the accepted calls alone), the forest/termination/offset invariants hold (uf_history_invariant); unwrap_bf_overlap_phase_torch with right-length values is the modelled function, an unknown method either raises or (no pass needed) returns exactly what the valid method returns, wrong-length values are a RuntimeError (bf_args_spec). _pixel_reliability (wrapped second differences, periodic rolls) and the sort are modelled exactly and the real edge ORDER is checked to be ascending in the model's exact rational reliabilities. The model is tied to the code on every run by exact differential streams (edge multisets, union-find final offsets on the real edge order, end-to-end fields, bf-overlap embedding, call histories with rejected and fault-injected calls run before anything else has called the module, union-find and bf histories) and the property predicate is evaluated on the real outputs of every valid call, inside and outside histories, with an independent connected-component / wrap-count oracle. Growth 6 (Props/C17Ext.lean): _find_wrap characterised exactly (iff for each of -1/0/+1; a stored difference of exactly +-pi gets 0; exchanging the two pixels negates the increment), already-unwrapped input with neighbour differences <= pi (closed bound) returned up to one constant, a literal counterexample showing that < pi cannot be weakened for wrapped input, the bounded neighbour graph is a subgraph of the periodic one and the seam pairs are exactly what wrap_around=True adds, every bounded mask region lies in one periodic region, two calls on one grid that differ only in wrap_around agree up to one constant on every bounded mask region (any merge orders), and a literal witness of a region held together only by the seam.",
+    "text": "Lean 4 theorems over an executable model of the reliability-sorting unwrapper (edge construction for bounded/periodic grids with masks, union-find with offsets exactly as UnionFindPhase: no path compression, union by rank, the code's sign conventions; final offsets; mean removal; the bright-field embedding) and of the PUBLIC entry points with their argument handling (dispatch on method, phi.shape unpacking, the mask entering through broadcasting and flat indexing, value lengths and the lazily validated method of unwrap_bf_overlap_phase_torch) including the exception type of every rejected call. The merge ORDER is an input of the model, so every theorem holds for every order the float reliability sort could produce. Proved for all sizes, masks, edge multigraphs (self-loops/duplicates included) and orders: termination of find (rank strictly increases to the root), the offset-consistency invariant (every stored offset is n(pixel)-n(parent) for any integer field the increments are differences of), Itoh => increments are wrap-count differences (over the reals, threshold pi), hence out - truth is constant on every connected component of the masked edge graph; out - input is in 2*pi*Z plus one constant for every input; smooth unwrapped input is returned up to one constant; same-tree edges are no-ops; the grid-level body of unwrap_bf_overlap_phase_torch (mask test, max-min>pi test, one or two passes) returns the truth up to a constant per connected overlap region in every branch; the model's edge graph is the 4-neighbour graph (bounded and periodic; the periodic edge list is characterised as a multiset for every HxW incl. H or W in {1,2}: self-loops / double edges exactly there); the input is taken raw: recovery holds for any representative of the truth whose neighbouring wrap counts are at most one apart (any 2*pi window such as [0,2pi), partially or fully unwrapped input), with a counterexample two cycles apart; the result is independent of the reliability (any comparison function used for the sort, any wrap function inside _pixel_reliability); the whole unwrap_bf_overlap_phase_torch incl. scatter phase_grid[bf_mask]=... and gather is correct entry by entry, for every number of images. Growth 5, over HISTORIES including calls that raise: a well-formed call (2-D phase, no mask or a mask of the grid's shape) never raises, never diverges and is correct (call_valid_correct: total correctness of the public entry point); in ANY history of calls on the module, valid and rejected ones in any order, every well-formed call returns what it returns alone, i.e. the truth up to a constant per region (session_exception_safe, session_pointwise); the rejected calls by exception type (rejected_calls: unknown method / non-2-D phase ValueError, Poisson on a bounded grid NotImplementedError, non-broadcastable mask RuntimeError, a mask that broadcasts but has fewer elements than the grid IndexError, never silently broadcast); after ANY history of union calls on one UnionFindPhase object, calls with an index past the end included, exactly those raise, they leave the object untouched (state = state after the accepted calls alone), the forest/termination/offset invariants hold (uf_history_invariant); unwrap_bf_overlap_phase_torch with right-length values is the modelled function, an unknown method either raises or (no pass needed) returns exactly what the valid method returns, wrong-length values are a RuntimeError (bf_args_spec). _pixel_reliability (wrapped second differences, periodic rolls) and the sort are modelled exactly and the real edge ORDER is checked to be ascending in the model's exact rational reliabilities. The model is tied to the code on every run by exact differential streams (edge multisets, union-find final offsets on the real edge order, end-to-end fields, bf-overlap embedding, call histories with rejected and fault-injected calls run before anything else has called the module, union-find and bf histories) and the property predicate is evaluated on the real outputs of every valid call, inside and outside histories, with an independent connected-component / wrap-count oracle. Growth 6 (Props/C17Ext.lean): _find_wrap characterised exactly (iff for each of -1/0/+1; a stored difference of exactly +-pi gets 0; exchanging the two pixels negates the increment), already-unwrapped input with neighbour differences <= pi (closed bound) returned up to one constant, a literal counterexample showing that < pi cannot be weakened for wrapped input, the bounded neighbour graph is a subgraph of the periodic one and the seam pairs are exactly what wrap_around=True adds, every bounded mask region lies in one periodic region, two calls on one grid that differ only in wrap_around agree up to one constant on every bounded mask region (any merge orders), and a literal witness of a region held together only by the seam. Also there: negating the input negates the output of the whole run for every input and order (orientation symmetry: offsets and increments change sign, parents/ranks and merge decisions stay), every result on a non-empty grid has mean zero (the single constant is the mean over all pixels), the walk to the root takes at most rank[root]-rank[x] hops (tree height <= largest rank), result - input in 2*pi*Z + one constant at the public entry point for every input, and the wrap_around-flip statement inside any history of calls.",
     "note": "Trusted: Lean kernel + propext/Classical.choice/Quot.sound; hand model validated by sampled correspondence only; torch indexing/roll/argsort/where/broadcasting semantics; IEEE rounding (inputs are dyadic multiples of pi kept >= 2^-6*pi away from the +-pi thresholds so no float comparison is decided by rounding; the real code keeps offsets in float32, measured deviation from the exact model is reported); argsort ties may come out in any order (the model's stable merge sort is one admissible outcome; the order stream uses phases on a pi/16 grid so that distinct reliabilities are far apart); the Poisson method is outside the claim (only its dispatch and its explicit NotImplementedError are modelled); the caller's loop over images (direct_ptychography.py) is reproduced by the harness, not executed through DirectPtychography. Measured only: that the module really keeps no state between calls (the model says so by construction; the history stream compares every call of real histories with it); exception types of malformed arguments whose rejection is incidental (torch indexing / broadcasting / unpacking) are recorded and noted, not alarmed on - only the explicit raises (unknown method, Poisson bounded) are compared strictly; torch view semantics for negative pixel indices in UnionFindPhase (never produced by the unwrapper) are outside the model. Private helpers and UnionFindPhase internals are resolved defensively: if renamed / inlined / merged the internal-stage streams are skipped with a note (coverage.internal_stage_notes) and the public-API comparison decides; parent/rank/offset arrays are compared as an internal representation (a difference with equal final offsets is noted, not alarmed on).",
     "technique": "Lean 4 proof (forest/rank invariant, offset telescoping, Itoh lemma over R) + exact model-vs-implementation correspondence",
 }
